@@ -135,7 +135,7 @@ func (t treeSpec) write(root string, base time.Time) {
 
 func c18(c *Ctx) {
 	c.Rep.TieObs = []string{"O-gen: the directory tree after each run of the real `goht generate` binary (names, contents, modification times)"}
-	c.Rep.Rule = "random directory trees (nested dirs, vendor / node_modules / dot / underscore / --skip-dirs directories at several depths, orphaned outputs, templates that do not compile, unrelated files, up-to-date and stale outputs) x flag sets (--force, --keep, --skip-dirs, --max-workers 1 / 8, relative / absolute --path) x histories of two or three runs with edits, touches and deletions in between; plus one tree with hundreds of templates; oracle: the tree after each run against the specification computed with the real compiler + gofmt; distinct = distinct (tree, flags, history); non-trivial = the run had at least one stale template"
+	c.Rep.Rule = "random directory trees (nested dirs, vendor / node_modules / dot / underscore / --skip-dirs directories at several depths, orphaned outputs, templates that do not compile, unrelated files, up-to-date and stale outputs) x flag sets (--force, --keep, --skip-dirs, --max-workers 1 / 2 / 3 / 8, relative / absolute --path) x histories of two or three runs with edits, touches and deletions in between; plus one tree with hundreds of templates; oracle: the tree after each run against the specification computed with the real compiler + gofmt; distinct = distinct (tree, flags, history); non-trivial = the run had at least one stale template"
 	goht := filepath.Join(c.Build, "goht")
 	if !fileExists(goht) {
 		c.mismatch("setup", "", "goht binary missing", "", true)
@@ -164,7 +164,7 @@ func c18(c *Ctx) {
 		if c.R.Intn(2) == 0 {
 			skip = []string{"skipme"}
 		}
-		workers := []int{1, 8}[c.R.Intn(2)]
+		workers := []int{1, 2, 3, 8}[c.R.Intn(4)]
 		rel := c.R.Intn(2) == 0
 		runs := 2 + c.R.Intn(2)
 		cur := snapshot(root)
